@@ -3,7 +3,7 @@ from collections import Counter
 from datetime import timedelta
 
 from .. import hooks
-from ..gen import big_n, canon, mk_event, rand_grid, td_us
+from ..gen import big_n, canon, exact, mk_event, rand_grid, td_us
 from . import _tx
 from ._tx import exc_viol, is_event_list, iv, snap, tmod, unmodified
 
@@ -77,7 +77,7 @@ def post_merge(old, oldkw, result, exc, after, afterkw):
                 v.append(("mergekeys-duration-not-group-sum", f"group={_gsig(r.data, keys)} want={want} got={r.duration}"))
                 break
             wantdata = {k: g[0].data[k] for k in keys if k in g[0].data}
-            if canon(r.data) != canon(wantdata):
+            if exact(r.data) != exact(wantdata):
                 v.append(("mergekeys-data-not-key-values", f"want={canon(wantdata)} got={canon(r.data)}"))
                 break
     if sum((r.duration for r in result), timedelta(0)) != sum((e.duration for e in events), timedelta(0)):
